@@ -380,8 +380,10 @@ class Circuit(Unitary, StateVectorMap, Collection[Operation]):
                 if op is None or i + qudit_index in qudits_to_skip:
                     continue
                 shifted_location = [shift_index(i) for i in op.location]
-                op._location = CircuitLocation(shifted_location)
-                qudits_to_skip.extend(op.location)
+                new_op = Operation(op.gate, shifted_location, op.params)
+                for q in new_op.location:
+                    cycle[q] = new_op
+                qudits_to_skip.extend(new_op.location)
 
         # Shift _front, _rear, _graph_info, _dag
         self._front = {
@@ -472,8 +474,10 @@ class Circuit(Unitary, StateVectorMap, Collection[Operation]):
                 if op is None or i + qudit_index in qudits_to_skip:
                     continue
                 shifted_location = [shift_index(i) for i in op.location]
-                op._location = CircuitLocation(shifted_location)
-                qudits_to_skip.extend(op.location)
+                new_op = Operation(op.gate, shifted_location, op.params)
+                for q in new_op.location:
+                    cycle[q] = new_op
+                qudits_to_skip.extend(new_op.location)
 
         # Shift _front, _rear, _graph_info, _dag
         self._front = {
@@ -610,7 +614,9 @@ class Circuit(Unitary, StateVectorMap, Collection[Operation]):
                 op = self._circuit[i][j]
                 if op is not None:
                     loc = CircuitLocation([perm[q] for q in op.location])
-                    op._location = loc
+                    new_op = Operation(op.gate, loc, op.params)
+                    for q in loc:
+                        self._circuit[i][q] = new_op
                     qudits_to_skip.extend(loc)
 
     # endregion
